@@ -2,6 +2,8 @@ package btchecks
 
 import (
 	"fmt"
+	"os"
+	"strings"
 	"sync"
 	"sync/atomic"
 	"testing"
@@ -29,6 +31,8 @@ type C18Case struct {
 	Hole   int          `json:"hole,omitempty"`
 	Gaps   [][]C18Write `json:"gaps"` // writes performed while the scan is inside its k-th Send
 	Free   bool         `json:"free,omitempty"`
+	Big    bool         `json:"big,omitempty"`    // ~4 KB values: the table outgrows the write buffer, the scan reads leveldb table files
+	Reopen bool         `json:"reopen,omitempty"` // disk engine: closed and reopened before the scan (data in table files)
 }
 
 func c18Key(i int) bt.BS       { return bt.BS(fmt.Sprintf("r%05d", i)) }
@@ -51,6 +55,12 @@ func genC18(free bool) *rapid.Generator[C18Case] {
 			return C18Write{K: rapid.SampledFrom([]string{"set", "set", "del", "rmw", "ins", "multi"}).Draw(t, "k"), Row: rapid.IntRange(0, c.NRows-1).Draw(t, "row")}
 		})
 		c.Gaps = rapid.SliceOfN(rapid.SliceOfN(w, 0, 6), 1, 7).Draw(t, "gaps")
+		if !c.Wide {
+			c.Big = rapid.IntRange(0, 4).Draw(t, "big") == 0
+		}
+		if c.Engine == "leveldb-disk" {
+			c.Reopen = rapid.IntRange(0, 2).Draw(t, "reopen") == 0
+		}
 		return c
 	})
 }
@@ -128,11 +138,20 @@ func runC18(c C18Case, ev *vt.Ev) *vt.Failure {
 		vt.WriteCurrent("TestC18Race", "C18", c)
 		defer vt.ClearCurrent("TestC18Race")
 	}
-	s, err := bt.NewSrv(c.Engine, "")
+	dir := ""
+	if c.Reopen {
+		d, err := os.MkdirTemp("", "c18")
+		if err != nil {
+			return vt.Failf("C18", "harness: %v", err)
+		}
+		defer os.RemoveAll(d)
+		dir = d
+	}
+	s, err := bt.NewSrv(c.Engine, dir)
 	if err != nil {
 		return vt.Failf("C18", "server start: %v", err)
 	}
-	defer s.Close()
+	defer func() { s.Close() }()
 	s.SetClock(5000)
 	if f := mustCreate(s, nil, tbl, []string{"f"}); f != nil {
 		f.Property = "C18"
@@ -143,14 +162,18 @@ func runC18(c C18Case, ev *vt.Ev) *vt.Failure {
 	if c.Wide {
 		cells = 5
 	}
+	initVal := "init"
+	if c.Big {
+		initVal += strings.Repeat("v", 4200)
+	}
 	var entries []bt.Entry
 	for i := 0; i < c.NRows; i++ {
 		row := bt.MRow{"f": {}}
 		var muts []bt.Mut
 		for j := 0; j < cells; j++ {
 			q := fmt.Sprintf("c%d", j)
-			row["f"][q] = map[int64]string{1000: "init"}
-			muts = append(muts, bt.Mut{K: "set", Fam: "f", Qual: bt.BS(q), TS: 1000, Val: "init"})
+			row["f"][q] = map[int64]string{1000: initVal}
+			muts = append(muts, bt.Mut{K: "set", Fam: "f", Qual: bt.BS(q), TS: 1000, Val: bt.BS(initVal)})
 		}
 		m.versions[string(c18Key(i))] = []bt.MRow{row}
 		entries = append(entries, bt.Entry{Key: c18Key(i), Muts: muts})
@@ -160,6 +183,13 @@ func runC18(c C18Case, ev *vt.Ev) *vt.Failure {
 			}
 			entries = nil
 		}
+	}
+	if c.Reopen {
+		s.Close()
+		if s, err = bt.NewSrv(c.Engine, dir); err != nil {
+			return vt.Failf("C18", "reopen: %v", err)
+		}
+		s.SetClock(5000)
 	}
 	var rs *bt.RowSet
 	lo, hi := bt.BS(""), bt.BS("\xff")
@@ -318,6 +348,9 @@ func runC18(c C18Case, ev *vt.Ev) *vt.Failure {
 		}
 	}
 	labels := []string{"engine=" + c.Engine, fmt.Sprintf("messages>=3:%v", got.Msgs >= 3), fmt.Sprintf("wide=%v", c.Wide)}
+	if c.Big || c.Reopen {
+		labels = append(labels, "data-in-table-files")
+	}
 	if touchedAhead {
 		labels = append(labels, "write-to-row-not-yet-streamed")
 	}
@@ -338,7 +371,7 @@ func (s *scanTracker) send(n int) error { return s.onSend(n) }
 
 func TestC18(t *testing.T) {
 	vt.Prop[C18Case]{ID: "C18", Test: "TestC18",
-		Rule: "owned interleaving: a full or ranged scan over 1100-3000 single-cell rows or 250-600 five-cell rows (2-6 response messages) on the leveldb engines is parked inside every Send (where it has released the table lock) while a drawn batch of writes runs to acknowledgement: multi-cell SetCell, DeleteFromRow, ReadModifyWrite append, new keys, two-row MutateRows on rows before / at / after the scan position; oracle: status OK, strictly ascending keys inside the range, every returned row equals ONE state that row had during the scan (whole row compared), rows present throughout are returned, every write is acknowledged while the scan is parked; non-trivial = >=2 gaps with acknowledged writes touching a row not yet streamed",
+		Rule: "owned interleaving: a full or ranged scan over 1100-3000 single-cell rows or 250-600 five-cell rows (2-6 response messages; a fifth of the tables with ~4 KB values so that they outgrow the write buffer, a third of the disk tables closed and reopened first: the scan then reads leveldb table files) on the leveldb engines is parked inside every Send (where it has released the table lock) while a drawn batch of writes runs to acknowledgement: multi-cell SetCell, DeleteFromRow, ReadModifyWrite append, new keys, two-row MutateRows on rows before / at / after the scan position; oracle: status OK, strictly ascending keys inside the range, every returned row equals ONE state that row had during the scan (whole row compared), rows present throughout are returned, every write is acknowledged while the scan is parked; non-trivial = >=2 gaps with acknowledged writes touching a row not yet streamed",
 		Gen:  genC18(false), Run: runC18}.Main(t)
 }
 
